@@ -9,13 +9,22 @@ Two ties to the real code:
      threads and real time (`pty …` lines, run from `extra_checks`; each line is also what a replay
      re-executes): every byte value in both directions, bursts under varying writer pacing, padding,
      timed idle reads, and a full `CommHandler` session against the reference device compared with the
-     same session over an in-memory link.
+     same session over an in-memory link (also with device frames of 4097..60006 bytes written in paced pieces);
+     `pty cfg`: how the real constructor opens the port — the arguments it hands to pyserial (judged against
+     pyserial's own signature), and, on the pty, the settings read back from the pyserial object and from
+     `termios.tcgetattr` of the slave side: 8 data bits, no parity, one stop bit, no XON/XOFF, RTS/CTS, DSR/DTR, raw mode
+     (a pty passes 0x80..0xff under 7 data bits and ignores CRTSCTS, so the byte measurements cannot see these);
+     `pty txsweep`: write padding that is not a power of two; `pty txp`: client writes while the other end drains
+     slowly (a write that cannot finish within the port's write timeout must raise, never lose bytes silently).
+If no pseudo-terminal can be opened the check still runs (a), the Lean side and the pyserial-argument part of
+`pty cfg`; the evidence then says `coverage.pty_available = false` and nothing is measured on a tty.
 """
 import hashlib
 import os
 import random
 import re
 import select
+import struct
 import threading
 import time
 import types
@@ -373,6 +382,207 @@ def pty_tx(pad, seed, size, stats=None):
         p.close()
 
 
+def pty_txsweep(pad, lo, hi, seed, stats=None):
+    """client → other end on ONE port: a write of every length lo..hi with write_padding = pad, each taken from the
+    master side before the next"""
+    p = PtyPort()
+    try:
+        p.dev.write_padding = pad
+        for n in range(lo, hi + 1):
+            d = payload(seed + n, n)
+            want = pad_expected(pad, d)
+            try:
+                p.dev.write(d)
+            except Exception as e:
+                return {"key": "pty-write-raises", "what": f"write of {n} bytes with padding {pad} raised", "expected": "no exception",
+                        "observed": f"{type(e).__name__}: {e}"}
+            got = p.master_read(len(want), time.time() + 2, linger=0.0008)
+            if got != want:
+                return {"key": "pty-tx-altered", "what": f"write_padding = {pad}; write({n} bytes = {hexs(d)}): what arrives at the other "
+                        f"end of the pty is not the bytes written followed by zeros up to the next multiple of {pad}",
+                        "expected": f"{len(want)} bytes: {hexs(want)}", "observed": f"{len(got)} bytes: {hexs(got)}"}
+            if stats is not None:
+                stats["tx_bytes"] = stats.get("tx_bytes", 0) + len(want)
+        if stats is not None:
+            stats.setdefault("tx_sweep_paddings", []).append(pad)
+        return None
+    finally:
+        p.close()
+
+
+def pty_txp(pad, seed, size, rate, stats=None):
+    """client → other end while the other end drains slowly: the master side takes at most `rate` bytes per second.
+    The property: the bytes arrive unchanged and in order.  A write that cannot be handed to the OS within the port's write
+    timeout may raise (the port is opened with a finite write timeout: Props/C18 `write_longer_than_timeout_is_cut`) — what
+    arrived until then must be a prefix of what was written, and a burst that the line takes well within the timeout
+    (size ≤ half of rate × write timeout, or small enough for any tty buffer: ≤ 1024 bytes) must not raise at all.
+    Bytes missing WITHOUT an exception are a violation at every size and rate."""
+    data = payload(seed, size)
+    want = pad_expected(pad, data)
+    p = PtyPort()
+    try:
+        p.dev.write_padding = pad
+        wt = p.dev._ser.write_timeout
+        got = bytearray()
+        done = threading.Event()
+        stop = threading.Event()
+
+        def reader():
+            q = max(1, rate // 100)
+            last = time.time()
+            try:
+                while not stop.is_set():
+                    t = time.perf_counter()
+                    r, _, _ = select.select([p.master], [], [], 0)
+                    if r:
+                        got.extend(os.read(p.master, q))
+                        last = time.time()
+                    elif done.is_set() and time.time() - last > 0.15:
+                        return
+                    dt = 0.01 - (time.perf_counter() - t)
+                    if dt > 0:
+                        time.sleep(dt)
+            except OSError:
+                pass
+        th = threading.Thread(target=reader, daemon=True)
+        th.start()
+        err = None
+        t0 = time.time()
+        try:
+            p.dev.write(data)
+        except Exception as e:
+            err = e
+        took = time.time() - t0
+        done.set()
+        th.join(len(want) / max(1, rate) + 5)
+        stop.set()
+        got = bytes(got)
+        must_complete = len(want) <= 1024 or (wt is None) or (wt > 0 and len(want) <= rate * wt / 2)
+        if stats is not None:
+            stats["tx_bytes"] = stats.get("tx_bytes", 0) + len(got)
+            stats["tx_paced"] = stats.get("tx_paced", 0) + 1
+        if err is None:
+            if got != want:
+                return {"key": "pty-tx-altered", "what": f"write of {size} bytes (padding {pad}) while the other end of the pty takes "
+                        f"{rate} bytes/s: the write returned normally after {took:.2f} s, yet the bytes do not all arrive",
+                        "expected": "every byte written arrives, or the write raises", "observed": diff_report(want, got)}
+            return None
+        name = type(err).__name__
+        if not want.startswith(got):
+            return {"key": "pty-tx-altered", "what": f"write of {size} bytes (padding {pad}) at {rate} bytes/s raised {name}; what arrived before "
+                    "is not a prefix of what was written", "expected": "prefix", "observed": diff_report(want, got)}
+        if must_complete or "Timeout" not in name:
+            return {"key": "pty-write-raises", "what": f"write of {size} bytes (padding {pad}) while the other end takes {rate} bytes/s raised "
+                    f"after {took:.2f} s with {len(got)} bytes delivered (port write timeout {wt} s)", "expected": "no exception",
+                    "observed": f"{name}: {err}"}
+        if stats is not None:
+            stats.setdefault("write_timeouts_observed", []).append(
+                {"size": len(want), "rate_Bps": rate, "write_timeout_s": wt, "raised": name, "after_s": round(took, 2),
+                 "delivered_intact_prefix": len(got)})
+        return None
+    finally:
+        p.close()
+
+
+# what a transparent line needs (the property's own statement; pyserial's vocabulary)
+WANT_SETTINGS = {"bytesize": 8, "parity": "N", "stopbits": 1, "xonxoff": False, "rtscts": False, "dsrdtr": False}
+WHY = {"bytesize": "on a UART only the low data bits of every byte go over the wire: 0x80..0xff arrive altered",
+       "parity": "a parity bit changes the character format the other end must use (and with INPCK/PARMRK marks or drops bytes)",
+       "stopbits": "the character format differs from 8N1",
+       "xonxoff": "the tty layer consumes 0x11/0x13 and a received 0x13 stalls the client's writes",
+       "rtscts": "the other end (or an unconnected CTS pin) can hold the client's writes until the write timeout",
+       "dsrdtr": "the other end (or an unconnected DSR pin) can hold the client's writes until the write timeout"}
+
+
+EXAMPLE = {
+    "bytesize": lambda v: (f"the other end sends 0xff → dev.read() returns 0x{0xff & ((1 << v) - 1):02x}; dev.write(b'\\x80') → the other end "
+                           f"receives 0x{0x80 & ((1 << v) - 1):02x}") if isinstance(v, int) and 5 <= v < 8 else f"bytesize {v!r}: not an 8-bit character",
+    "parity": lambda v: f"every character carries a parity bit ({v!r}): an 8N1 device sees framing errors / altered bytes",
+    "stopbits": lambda v: f"{v!r} stop bits instead of one",
+    "xonxoff": lambda v: "the other end sends 01 13 02 → dev.read() returns 01 02, and the next dev.write(…) stalls until the write timeout",
+    "rtscts": lambda v: "CTS low (or not wired): dev.write(b'\\x55') raises SerialTimeoutException after the write timeout, nothing arrives",
+    "dsrdtr": lambda v: "DSR low (or not wired): dev.write(b'\\x55') raises SerialTimeoutException after the write timeout, nothing arrives",
+}
+
+
+def open_arguments():
+    """what SerialDevice(port), built with its default arguments, hands to pyserial — bound to pyserial's OWN signature, so
+    that positional arguments, keywords and pyserial's defaults are all accounted for"""
+    import inspect
+    import serial
+    _, port = make_dev(0)
+    sig = inspect.signature(serial.Serial.__init__)
+    ba = sig.bind(None, *port.args, **port.kw)
+    ba.apply_defaults()
+    eff = dict(ba.arguments)
+    eff.pop("self", None)
+    extra = eff.pop("kwargs", {}) or {}
+    return eff, extra, port
+
+
+def judge_settings(got, where):
+    bad = {k: got.get(k) for k, v in WANT_SETTINGS.items() if k in got and (got[k] != v or type(got[k]) is not type(v))}
+    if not bad:
+        return None
+    return {"key": "port-not-8n1-transparent",
+            "what": f"SerialDevice(<port>) built with its default arguments opens the port with "
+                    + ", ".join(f"{k}={v!r}" for k, v in sorted(bad.items())) + f" ({where}): "
+                    + "; ".join(WHY[k] for k in sorted(bad)),
+            "expected": {k: WANT_SETTINGS[k] for k in sorted(bad)}, "observed": {k: repr(v) for k, v in sorted(bad.items())},
+            "input": "dev = nxslib.intf.serial.SerialDevice(port)  (default arguments), port a UART; then: "
+                     + "; ".join(EXAMPLE[k](bad[k]) for k in sorted(bad))}
+
+
+def pty_cfg(stats=None):
+    """how the port is opened.  (1) arguments handed to pyserial (fake port, no tty needed); (2) on a pty: the pyserial
+    object's settings and the termios state of the line after the real constructor ran"""
+    eff, extra, _ = open_arguments()
+    if stats is not None:
+        stats["open_settings_effective"] = {k: repr(v) for k, v in sorted(eff.items()) if k != "port"}
+    if extra:
+        return {"key": "port-not-8n1-transparent", "what": "SerialDevice hands pyserial settings it does not know", "expected": "-", "observed": repr(extra)}
+    v = judge_settings(eff, "arguments of the serial.Serial(…) call, pyserial defaults for the rest")
+    if v:
+        return v
+    try:
+        p = PtyPort()
+    except OSError:
+        return None
+    try:
+        import termios
+        ser = p.dev._ser
+        obj = {k: getattr(ser, k) for k in WANT_SETTINGS}
+        v = judge_settings(obj, "read back from the pyserial object of an open pty")
+        if v:
+            return v
+        iflag, oflag, cflag, lflag, _, _, cc = termios.tcgetattr(p.slave)
+        # (a pty forces CS8 and clears PARENB whatever is asked; the other bits are kept as set)
+        flags = {
+            "CS8": (cflag & termios.CSIZE) == termios.CS8, "PARENB": bool(cflag & termios.PARENB), "CSTOPB": bool(cflag & termios.CSTOPB),
+            "CRTSCTS": bool(cflag & termios.CRTSCTS), "IXON": bool(iflag & termios.IXON), "IXOFF": bool(iflag & termios.IXOFF),
+            "IXANY": bool(iflag & termios.IXANY), "ISTRIP": bool(iflag & termios.ISTRIP), "INPCK": bool(iflag & termios.INPCK),
+            "PARMRK": bool(iflag & termios.PARMRK), "INLCR": bool(iflag & termios.INLCR), "IGNCR": bool(iflag & termios.IGNCR),
+            "ICRNL": bool(iflag & termios.ICRNL), "OPOST": bool(oflag & termios.OPOST), "ICANON": bool(lflag & termios.ICANON),
+            "ECHO": bool(lflag & termios.ECHO), "ISIG": bool(lflag & termios.ISIG), "IEXTEN": bool(lflag & termios.IEXTEN),
+            "VMIN": cc[termios.VMIN] if isinstance(cc[termios.VMIN], int) else cc[termios.VMIN][0],
+            "VTIME": cc[termios.VTIME] if isinstance(cc[termios.VTIME], int) else cc[termios.VTIME][0]}
+        want = {k: False for k in flags}
+        want.update({"CS8": True, "VMIN": 0, "VTIME": 0})
+        bad = {k: flags[k] for k in flags if flags[k] != want[k]}
+        if stats is not None:
+            stats["termios_after_open"] = {"raw_8bit_no_flow_control": not bad, **({"differs": bad} if bad else {})}
+            stats["pyserial_object_settings"] = {k: repr(x) for k, x in sorted(obj.items())}
+        if bad:
+            return {"key": "port-not-8n1-transparent",
+                    "what": "termios state of the line after SerialDevice(<pty>) opened it with its default arguments is not "
+                            "raw / 8 bit / without flow control: " + ", ".join(f"{k}={x}" for k, x in sorted(bad.items())),
+                    "expected": {k: want[k] for k in sorted(bad)}, "observed": {k: bad[k] for k in sorted(bad)},
+                    "input": "nxslib.intf.serial.SerialDevice(os.ttyname(slave)); termios.tcgetattr(slave)"}
+        return None
+    finally:
+        p.close()
+
+
 def pty_bytes(stats=None):
     """every byte value, one at a time and all together, in both directions"""
     p = PtyPort()
@@ -474,12 +684,47 @@ class DevServer:
     """the reference device behind a byte interface: reassembles requests from whatever pieces arrive,
     emits `nframes` stream frames once started"""
 
-    def __init__(self, rxpadding, nframes):
+    def __init__(self, rxpadding, nframes, plan=None):
         self.dev = refdev.RefDevice(SESSION_CHANS, flags=3, rxpadding=rxpadding)
         self.inbuf = bytearray()
-        self.left = nframes
+        # plan: the length on the wire of every stream frame (None = one sample of every enabled channel)
+        self.plan = list(plan) if plan else None
+        self.left = len(self.plan) if self.plan else nframes
         self.lock = threading.Lock()
         self.seen = bytearray()
+        self.sent_lengths = []
+
+    def big_tick(self, target):
+        """one stream frame of exactly `target` bytes on the wire: as many whole rounds (one sample of every enabled
+        channel) as fit, then samples of the shortest enabled channel up to the length"""
+        d = self.dev
+        chans = [(i, ch) for i, ch in enumerate(d.chans) if ch["en"]]
+        if target is None or not chans:
+            return d.stream_tick()
+
+        def sample(i, ch, c):
+            return bytes([i]) + d.sample_bytes(ch, c) + bytes((c + k) & 0xFF for k in range(ch["mlen"]))
+        sizes = [len(sample(i, ch, 0)) for i, ch in chans]
+        T = sum(sizes)
+        f = min(sizes)
+        fi, fch = chans[sizes.index(f)]
+        room = target - 7            # start byte, length, id, footer = 6; one flags byte
+        k = room // T
+        while k >= 0 and (room - k * T) % f:
+            k -= 1
+        if k < 0:
+            return d.stream_tick()
+        body = bytearray([0])
+        for _ in range(k):
+            for i, ch in chans:
+                body += sample(i, ch, d.stream_cntr)
+            d.stream_cntr += 1
+        for _ in range((room - k * T) // f):
+            body += sample(fi, fch, d.stream_cntr)
+            d.stream_cntr += 1
+        fr = d.codec.create(refdev.STREAM, bytes(body))
+        assert len(fr) == target, (len(fr), target)
+        d.rx += fr
 
     def feed(self, data):
         with self.lock:
@@ -510,8 +755,13 @@ class DevServer:
     def take(self, tick=True):
         with self.lock:
             if tick and self.dev.started and self.left > 0:
-                self.dev.stream_tick()
+                n0 = len(self.dev.rx)
+                if self.plan is not None:
+                    self.big_tick(self.plan[len(self.plan) - self.left])
+                else:
+                    self.dev.stream_tick()
                 self.left -= 1
+                self.sent_lengths.append(len(self.dev.rx) - n0)
             out = bytes(self.dev.rx)
             self.dev.rx.clear()
             return out
@@ -553,10 +803,10 @@ def session_script(intf, nframes):
         comm.disconnect()
 
 
-def memory_session(rxpadding, nframes):
+def memory_session(rxpadding, nframes, plan=None):
     """the same session over an ideal in-memory link"""
     from nxslib.intf.iintf import ICommInterface
-    srv = DevServer(rxpadding, nframes)
+    srv = DevServer(rxpadding, nframes, plan)
 
     class MemLink(ICommInterface):
         def start(self): pass
@@ -574,8 +824,8 @@ def memory_session(rxpadding, nframes):
     return session_script(MemLink(), nframes), srv
 
 
-def pty_session_once(rxpadding, nframes, seed, stats=None):
-    srv = DevServer(rxpadding, nframes)
+def pty_session_once(rxpadding, nframes, seed, stats=None, plan=None):
+    srv = DevServer(rxpadding, nframes, plan)
     p = PtyPort()
     stop = threading.Event()
     r = random.Random(f"C18-session:{rxpadding}:{nframes}:{seed}")
@@ -589,7 +839,14 @@ def pty_session_once(rxpadding, nframes, seed, stats=None):
                     srv.feed(os.read(p.master, 65536))
                 out = srv.take()
                 i = 0
+                big = len(out) > 2048
                 while i < len(out):
+                    if big:
+                        # a long frame goes out in paced pieces: the client polls an idle line in the middle of it
+                        k = r.choice([300, 700, 1500, 1500, 4000])
+                        i += os.write(p.master, out[i:i + k])
+                        time.sleep(r.uniform(0.001, 0.004))
+                        continue
                     k = r.choice([1, 3, 4, 7, 16, 64, len(out)])
                     i += os.write(p.master, out[i:i + k])
                     if r.random() < 0.2:
@@ -616,6 +873,9 @@ def pty_session_once(rxpadding, nframes, seed, stats=None):
             stats["session_nonempty_reads"] = stats.get("session_nonempty_reads", 0) + len(sizes)
             stats["session_read_sizes"] = sorted(set(sizes))[:40]
             stats["session_bytes_from_client"] = len(srv.seen)
+            if plan:
+                stats["session_longest_device_frame"] = max([stats.get("session_longest_device_frame", 0)] + srv.sent_lengths)
+                stats["session_long_device_frames"] = stats.get("session_long_device_frames", 0) + sum(1 for x in srv.sent_lengths if x > 4096)
         return res, srv, pump_err
     finally:
         stop.set()
@@ -623,13 +883,35 @@ def pty_session_once(rxpadding, nframes, seed, stats=None):
         p.close()
 
 
-def pty_session(rxpadding, nframes, seed, stats=None):
-    """a full client session over the pty vs over the in-memory link"""
+def pty_session(rxpadding, nframes, seed, stats=None, plan=None):
+    """a full client session over the pty vs over the in-memory link, see pty_session_try.  The session runs in real time
+    with the client's 1 s reply timeouts: when the machine is so loaded that the device-side helper thread is not scheduled
+    for that long, the client re-sends a request and takes the late reply for the answer to the next one (seen once under a
+    load average of 37: channel 5 described with channel 4's reply) — that is the link being slow, not altering bytes.  A
+    difference is therefore confirmed by running the session a second time; a port that alters, loses or reorders bytes does
+    so again.  The unconfirmed first result is kept in the evidence (`session_unconfirmed`)."""
+    v = pty_session_try(rxpadding, nframes, seed, stats, plan)
+    if v is None:
+        return None
+    v2 = pty_session_try(rxpadding, nframes, seed, stats, plan)
+    if v2 is None:
+        if stats is not None:
+            stats.setdefault("session_unconfirmed", []).append({"key": v.get("key"), "requests_seen_by_device": v.get("requests_seen_by_device")})
+        return None
+    v2["first_attempt"] = {"key": v.get("key"), "observed": str(v.get("observed"))[:300]}
+    return v2
+
+
+def pty_session_try(rxpadding, nframes, seed, stats=None, plan=None):
+    """a full client session over the pty vs over the in-memory link; with `plan` the device's stream frames have
+    the listed lengths on the wire (the in-memory link hands each over in one read, the pty in paced pieces)"""
     box = {}
+    if plan:
+        nframes = len(plan)
 
     def mem():
         try:
-            box["mem"] = memory_session(rxpadding, nframes)
+            box["mem"] = memory_session(rxpadding, nframes, plan)
         except Exception as e:
             box["mem_exc"] = f"{type(e).__name__}: {e}"
     mt = threading.Thread(target=mem, daemon=True)
@@ -637,7 +919,7 @@ def pty_session(rxpadding, nframes, seed, stats=None):
     last = None
     for attempt in (1, 2):
         try:
-            (desc, samples, notes), srv, perr = pty_session_once(rxpadding, nframes, seed, stats)
+            (desc, samples, notes), srv, perr = pty_session_once(rxpadding, nframes, seed, stats, plan)
             last = None
             break
         except Exception as e:
@@ -654,11 +936,15 @@ def pty_session(rxpadding, nframes, seed, stats=None):
     (mdesc, msamples, mnotes), msrv = box["mem"]
     want_desc = (len(SESSION_CHANS), 3, rxpadding,
                  tuple((i, c["type"], c["vdim"], c["name"], False, 0, c["mlen"]) for i, c in enumerate(SESSION_CHANS)))
+    reqs = {"pty": srv.dev.nreq, "ideal_link": msrv.dev.nreq}
     if desc != mdesc or desc != want_desc:
         return {"key": "pty-session-description", "what": "device description read over the pty differs from the one read over the "
-                "ideal link / from the device's configuration", "expected": repr(mdesc), "observed": repr(desc), "device": repr(want_desc)}
+                "ideal link / from the device's configuration", "expected": repr(mdesc), "observed": repr(desc), "device": repr(want_desc),
+                "requests_seen_by_device": reqs}
     if notes != mnotes:
-        return {"key": "pty-session-acks", "what": "start/stop outcome or number of stream frames differs", "expected": repr(mnotes), "observed": repr(notes)}
+        return {"key": "pty-session-acks", "what": "start/stop outcome or number of stream frames the client received differs between the pty and "
+                "the ideal link" + (f"; lengths of the device's stream frames on the wire: {srv.sent_lengths}" if plan else ""),
+                "expected": repr(mnotes), "observed": repr(notes)}
     if samples != msamples:
         i = first_diff(samples, msamples)
         return {"key": "pty-session-samples", "what": f"decoded stream samples differ from the ideal link (first at sample {i} of "
@@ -687,6 +973,23 @@ def pty_case(line, stats=None):
         return pty_idle(int(t[2]), stats)
     if t[1] == "session":
         return pty_session(int(t[2]), int(t[3]), int(t[4]), stats)
+    if t[1] == "bigsession":
+        plan = [None if x == "-" else int(x) for x in t[4].split(",")]
+        return pty_session(int(t[2]), len(plan), int(t[3]), stats, plan)
+    if t[1] == "txsweep":
+        return pty_txsweep(int(t[2]), int(t[3]), int(t[4]), int(t[5]), stats)
+    if t[1] == "txp":
+        v = pty_txp(int(t[2]), int(t[3]), int(t[4]), int(t[5]), stats)
+        if v and v.get("key") == "pty-write-raises" and "Timeout" in str(v.get("observed")):
+            # a write timeout where the paced reader should have been fast enough: the reader thread may not have been
+            # scheduled (loaded machine); a port that cannot write does so again
+            v2 = pty_txp(int(t[2]), int(t[3]), int(t[4]), int(t[5]), stats)
+            if v2 is None and stats is not None:
+                stats["txp_unconfirmed_timeouts"] = stats.get("txp_unconfirmed_timeouts", 0) + 1
+            return v2
+        return v
+    if t[1] == "cfg":
+        return pty_cfg(stats)
     raise ValueError(line)
 
 
@@ -754,7 +1057,8 @@ class C18(Prop):
             "directions), every byte value one at a time in both directions, paddings 0 1 2 3 4 8 16 64 255, bursts to 8192 "
             "bytes, executed on the real SerialDevice (own constructor) over a fake pyserial port and compared item by item "
             "and in the final buffer contents with the Lean pipe model; receive-path sessions (real CommHandler._recv_thread "
-            "over the real SerialDevice over the fake port with a scheduled OS chunking) compared with the model's frames; "
+            "over the real SerialDevice over the fake port with a scheduled OS chunking, incl. frames of 4097..9000 bytes arriving in "
+            "pieces with idle reads in between) compared with the model's frames; "
             "distinct = distinct line; non-trivial = some read or take returned bytes / some frame was extracted.  "
             "(b) extra_checks on a real pseudo-terminal, see coverage.pty")
     trusted_base = Prop.trusted_base + [
@@ -765,8 +1069,16 @@ class C18(Prop):
     assumptions = [
         "the Lean theorems are about the FIFO-pipe abstraction of the link; byte transparency of pyserial + the kernel tty "
         "layer is measured on a pseudo-terminal on this OS (real threads, real time), not proved",
-        "a pseudo-terminal stands in for a UART: baud rate, parity, framing errors and hardware flow control do not exist on it",
-        "write errors / write timeouts of the port are not modelled (SerialDevice._write lets them propagate)",
+        "a pseudo-terminal stands in for a UART: baud rate, parity, framing errors and hardware flow control do not exist on it; "
+        "that the port is opened 8N1 without flow control is therefore established statically (translator facts + theorem "
+        "port_is_transparent_8n1 / port_settings_never_changed) and by reading the settings back from pyserial and termios",
+        "write errors of the port are not modelled (SerialDevice._write lets them propagate). The port has a finite write "
+        "timeout (1 s): a single write longer than the free tty buffer plus what the line takes in that time raises "
+        "SerialTimeoutException after delivering an intact prefix (theorem write_longer_than_timeout_is_cut; measured: "
+        "coverage.pty.write_timeouts_observed). Every burst the client produces (a request of ≤ 263 bytes padded to ≤ 510 bytes) is written whole on any line of "
+        "5200 baud or more (theorem requests_written_whole)",
+        "if no pseudo-terminal can be opened (coverage.pty_available = false) the check passes on the fake-port "
+        "correspondence, the theorems and the pyserial-argument judgement alone",
         "reference device (harness/refdev.py) is a conforming NxScope device"]
 
     # ---- cases ---------------------------------------------------------------------------------------
@@ -805,6 +1117,18 @@ class C18(Prop):
             if rng.random() < 0.3:
                 ks = ks[:rng.randrange(0, len(ks) + 1)]
             yield f"pipe sess {','.join(map(str, ks)) or '-'} {hexs(s)}", "receive-session"
+        # device frames longer than 4096 bytes that arrive in pieces with idle reads in between (the model driver is
+        # quadratic in the length of such a line, hence few of them; up to 60006 bytes on the pty: `pty bigsession`)
+        from ref import ref_frame
+        for n in ([4097, 4100, 4500, 6000, 9000, rng.randrange(4097, 9000)] if T else [4097, rng.randrange(4098, 5000)]):
+            fr = ref_frame(1, bytes(rng.randrange(256) for _ in range(n - 6))) + ref_frame(4, bytes(4))
+            ks = []
+            left = len(fr)
+            while left > 0:
+                k = rng.choice([0, 0, 700, 1500, 1500, 4000])
+                ks.append(k)
+                left -= k
+            yield f"pipe sess {','.join(map(str, ks))} {hexs(fr)}", "long-frame-session"
 
     # ---- real code -----------------------------------------------------------------------------------
     def impl(self, line):
@@ -829,7 +1153,7 @@ class C18(Prop):
         t = line.split(" ")
         if t[0] == "pty":
             try:
-                return pty_case(line)
+                return pty_case(line)      # (`pty cfg` judges the arguments handed to pyserial even without a tty)
             except OSError as e:
                 if getattr(e, "errno", None) in (2, 6, 13, 19) or "pty" in str(e).lower():
                     return None     # no pseudo-terminal in this sandbox
@@ -917,6 +1241,7 @@ class C18(Prop):
         """(line, essential): essential experiments always run; the random bursts after them run until the time
         budget of the tier is used up (the number actually run is in the evidence)"""
         T = tier == "thorough"
+        yield "pty cfg", True
         yield f"pty idle {2000 if T else 300}", True
         yield "pty bytes", True
         sizes = [1, 2, 3, 7, 16, 255, 256, 1000, 4095, 4096, 4097, 8192]
@@ -928,21 +1253,39 @@ class C18(Prop):
         for n, pad in ((32768, 0), (65536, 16)) + (((262144, 4),) if T else ()):
             yield f"pty tx {pad} {rng.randrange(10**6)} {n}", True
             yield f"pty rx {rng.randrange(10**6)} {n} 0", True
+        # write padding that is not a power of two (and 255, the largest a device can ask for): every burst 1..48
+        for pad in (3, 5, 6, 7, 10, 12, 20, 24, 255) + ((9, 11, 13, 15, 17, 33, 100, 127, 254) if T else ()):
+            yield f"pty txsweep {pad} 1 {96 if T else 48} {rng.randrange(10**6)}", True
+        # the other end drains slowly.  Bursts the client itself produces (requests ≤ 263 bytes + padding ≤ 254) at rates
+        # down to a 2400-baud line; a long burst the line takes within the write timeout; and one it does not (the write
+        # must then raise, and what arrived must be an intact prefix — recorded in coverage.pty.write_timeouts_observed)
+        for size, pad, rate in ((263, 255, 2000), (517, 0, 960), (64, 16, 240)) + (((263, 7, 480), (517, 12, 5000), (100, 3, 100)) if T else ()):
+            yield f"pty txp {pad} {rng.randrange(10**6)} {size} {rate}", True
+        yield f"pty txp 4 {rng.randrange(10**6)} 32768 200000", True
+        yield f"pty txp 0 {rng.randrange(10**6)} 32768 10000", True
+        if T:
+            yield f"pty txp 16 {rng.randrange(10**6)} 65536 400000", True
+            yield f"pty txp 0 {rng.randrange(10**6)} 20000 5000", True
+        # device frames longer than the tty buffer / than 4096 bytes, written in paced pieces (idle reads fall inside them)
+        yield f"pty bigsession 4 {rng.randrange(10**6)} -,4097,-,4200,9000,-,20000,60006,-", True
         if T:
             for pace in (0, 1, 2, 3, 4, 5):
                 yield f"pty rx {rng.randrange(10**6)} 8192 {pace}", True
             for p in (0, 4, 16):
                 yield f"pty session {p} 1000 {rng.randrange(10**6)}", True
+            for p in (0, 3, 16, 255):
+                plan = [rng.choice([None, 4096, 4097, 4098, 4099, 60006, rng.randrange(4097, 60007), rng.randrange(4097, 9000)]) for _ in range(12)]
+                yield f"pty bigsession {p} {rng.randrange(10**6)} {','.join('-' if x is None else str(x) for x in plan)}", True
         else:
             yield f"pty session 4 200 {rng.randrange(10**6)}", True
         for _ in range(700 if T else 40):
             n = rng.choice([rng.randrange(1, 64), rng.randrange(1, 1024), rng.randrange(1, 8193)])
             yield f"pty rx {rng.randrange(10**6)} {n} {rng.choice([0, 0, 1, 2, 3, 5])}", False
-            yield f"pty tx {rng.choice([0, 4, 16])} {rng.randrange(10**6)} {n}", False
+            yield f"pty tx {rng.choice([0, 4, 16, 3, 5, 6, 7, 10, 12, 20, 24, 255])} {rng.randrange(10**6)} {n}", False
 
     def extra_checks(self, rng, tier, ev):
         cov = ev["coverage"]
-        # what the real constructor asks of pyserial
+        # what the real constructor asks of pyserial (judged in `pty cfg`, which needs no tty for this part)
         try:
             _, port = make_dev(0)
             cov["port_open_arguments"] = {"args": [repr(a) for a in port.args], "kwargs": {k: repr(v) for k, v in sorted(port.kw.items())}}
@@ -951,8 +1294,23 @@ class C18(Prop):
         try:
             probe = PtyPort()
             probe.close()
+            cov["pty_available"] = True
         except Exception as e:
-            cov["pty"] = f"unavailable: {type(e).__name__}: {e}"
+            cov["pty_available"] = False
+            cov["pty"] = (f"unavailable: {type(e).__name__}: {e} — NOTHING was measured on a tty in this run: byte transparency of "
+                          "pyserial + the tty layer, idle-read timing and the session comparison rest on the fake port only")
+            # the part of `pty cfg` that needs no tty is still judged
+            st = {}
+            try:
+                v = pty_cfg(st)
+            except OSError:
+                v = None
+            except Exception as e2:
+                v = {"key": "pty-harness-exception", "what": f"{type(e2).__name__}: {e2}", "expected": "-", "observed": "-"}
+            cov["port_open_settings"] = st
+            if v:
+                v["case"] = "pty cfg"
+                return [v]
             return []
         stats = {"lines": 0, "kinds": {}, "rx_bytes": 0}
         viol = []
@@ -1000,9 +1358,13 @@ class C18(Prop):
         stats["samples"] = samples
         stats["violations"] = len(viol)
         stats["what"] = ("real SerialDevice on the slave side of pty.openpty() through pyserial; helper threads on the master side; "
-                         "real time. rx = other end → client bursts with paced writer, tx = client writes with padding, "
+                         "real time. cfg = settings handed to pyserial / read back from the pyserial object and termios (8N1, raw, no "
+                         "flow control), rx = other end → client bursts with paced writer, tx = client writes with padding (eager "
+                         "reader), txsweep = every burst length on one port with a padding that is not a power of two, txp = client "
+                         "writes with a reader paced to <rate> bytes/s, "
                          "bytes = all 256 values each way, idle = timed reads on an idle line, session = real CommHandler against "
-                         "harness/refdev.RefDevice over the pty vs over an in-memory link")
+                         "harness/refdev.RefDevice over the pty vs over an in-memory link, bigsession = the same with device stream "
+                         "frames of the listed lengths (4097..60006 bytes) written in paced pieces")
         cov["pty"] = stats
         return viol
 
